@@ -17,7 +17,14 @@ def main():
     seed = int(os.environ.get('VERIF_SEED', '0') or 0)
     if a.pid not in PROPS:
         print('unknown or not-applicable property ' + a.pid); sys.exit(2)
-    rc = engine.main(a.pid, PROPS[a.pid], a.tier, seed, replay=a.replay, jobs=a.jobs)
+    try:
+        rc = engine.main(a.pid, PROPS[a.pid], a.tier, seed, replay=a.replay, jobs=a.jobs)
+    except SystemExit as e:
+        print('INCONCLUSIVE: %s' % (e,)); rc = 2
+    except BaseException as e:
+        import traceback
+        traceback.print_exc()
+        print('INCONCLUSIVE: internal error of the checking machinery: %s: %s' % (type(e).__name__, e)); rc = 2
     sys.stdout.flush(); sys.stderr.flush()
     os._exit(rc)
 
